@@ -2,70 +2,611 @@
   Helper lemmas for C19 (projection). Statements used by JP/Props/C19.lean.
 -/
 import JP.Projection
+import JP.Lemmas.JInduct
 namespace JP.Lemmas
 open JP JP.Projection
 
+/-! ## `fixJ`, `getT`/`setT` -/
+
+theorem fixList_id (xs : List J) (h : ∀ x ∈ xs, fixJ x = x) : fixJ.fixList xs = xs := by
+  induction xs with
+  | nil => rfl
+  | cons x xs ih =>
+    rw [fixJ.fixList, h x (List.mem_cons_self), ih (fun y hy => h y (List.mem_cons_of_mem _ hy))]
+
+theorem fixMembersJ_id (kvs : List (Str × J)) (h : ∀ kv ∈ kvs, fixJ kv.2 = kv.2) :
+    fixJ.fixMembers kvs = kvs := by
+  induction kvs with
+  | nil => rfl
+  | cons kv kvs ih =>
+    obtain ⟨k, v⟩ := kv
+    rw [fixJ.fixMembers, h (k, v) (List.mem_cons_self), ih (fun y hy => h y (List.mem_cons_of_mem _ hy))]
+
 theorem fixJ_id (v : J) : fixJ v = v := by
-  sorry
+  induction v using J.induct with
+  | hnull => rfl
+  | hbool => rfl
+  | hint => rfl
+  | hflt => rfl
+  | hstr => rfl
+  | harr xs ih =>
+    rw [fixJ]; split
+    · rfl
+    · rw [fixList_id xs ih]
+  | hobj kvs ih =>
+    rw [fixJ]; split
+    · rfl
+    · rw [fixMembersJ_id kvs ih]
 
 theorem getT_setT (kvs : List (Part × T)) (p q : Part) (t : T) :
     getT (setT kvs p t) q = if q = p then some t else getT kvs q := by
-  sorry
+  induction kvs with
+  | nil =>
+    simp only [setT, getT]
+    by_cases h : q = p
+    · simp [h]
+    · have : ¬ p = q := fun e => h e.symm
+      simp [h, this]
+  | cons kv kvs ih =>
+    obtain ⟨r, u⟩ := kv
+    simp only [setT]
+    by_cases hrp : r = p
+    · subst hrp
+      simp only [if_true, getT]
+      by_cases h : q = r
+      · subst h; simp
+      · have : ¬ r = q := fun e => h e.symm
+        simp [h, this]
+    · simp only [hrp, if_false, getT, ih]
+      by_cases hrq : r = q
+      · subst hrq; simp [hrp]
+      · simp [hrq]
+
+/-! ## `patch`, `patchAll` -/
+
+theorem getT_setT_self (kvs : List (Part × T)) (p : Part) (t : T) :
+    getT (setT kvs p t) p = some t := by rw [getT_setT]; simp
+
+theorem getT_setT_ne (kvs : List (Part × T)) (p q : Part) (t : T) (h : q ≠ p) :
+    getT (setT kvs p t) q = getT kvs q := by rw [getT_setT]; simp [h]
+
+theorem getPath_nil_cons (q : Part) (qs : List Part) : getPath (.node []) (q :: qs) = none := by
+  simp [getPath, getT]
+
+theorem getPath_cons (kvs : List (Part × T)) (p : Part) (rest : List Part) :
+    getPath (.node kvs) (p :: rest) = (getT kvs p).bind (getPath · rest) := by
+  rw [getPath]
+
+theorem getPath_leaf_cons (w : J) (p : Part) (rest : List Part) :
+    getPath (.leaf w) (p :: rest) = none := by
+  rw [getPath]
+
+theorem getPath_append (t : T) (a b : List Part) :
+    getPath t (a ++ b) = (getPath t a).bind (getPath · b) := by
+  induction a generalizing t with
+  | nil => simp [getPath]
+  | cons p a ih =>
+    cases t with
+    | leaf w => simp [getPath_leaf_cons]
+    | node kvs =>
+      simp only [List.cons_append, getPath_cons]
+      cases getT kvs p with
+      | none => rfl
+      | some t' => simp [ih]
 
 theorem patch_get (ps : List Part) (kvs kvs' : List (Part × T)) (v : J) (h : patch ps kvs v = some kvs') :
     getPath (.node kvs') ps = some (.leaf v) := by
-  sorry
+  induction ps, kvs, v using patch.induct generalizing kvs' with
+  | case1 => simp [patch] at h
+  | case2 p kvs v =>
+    simp only [patch, Option.some.injEq] at h
+    subst h
+    simp [getT_setT_self, getPath]
+  | case3 p q rest kvs v hg ih =>
+    simp only [patch, hg, Option.map_eq_some_iff] at h
+    obtain ⟨sub', hs, rfl⟩ := h
+    rw [getPath_cons, getT_setT_self]
+    exact ih sub' hs
+  | case4 p q rest kvs v sub hg ih =>
+    simp only [patch, hg, Option.map_eq_some_iff] at h
+    obtain ⟨sub', hs, rfl⟩ := h
+    rw [getPath_cons, getT_setT_self]
+    exact ih sub' hs
+  | case5 p q rest kvs v w hg =>
+    simp [patch, hg] at h
+
+/-- frame, both directions -/
+theorem patch_frame_eq (ps qs : List Part) (kvs kvs' : List (Part × T)) (v : J)
+    (h : patch ps kvs v = some kvs') (hd : ¬ ps <+: qs ∧ ¬ qs <+: ps) :
+    getPath (.node kvs') qs = getPath (.node kvs) qs := by
+  induction ps, kvs, v using patch.induct generalizing kvs' qs with
+  | case1 => simp [patch] at h
+  | case2 p kvs v =>
+    simp only [patch, Option.some.injEq] at h
+    subst h
+    cases qs with
+    | nil => exact absurd List.nil_prefix hd.2
+    | cons q0 qs' =>
+      have hne : q0 ≠ p := by
+        intro e; subst e
+        exact hd.1 (by simp [List.cons_prefix_cons])
+      rw [getPath_cons, getPath_cons, getT_setT_ne _ _ _ _ hne]
+  | case3 p q rest kvs v hg ih =>
+    simp only [patch, hg, Option.map_eq_some_iff] at h
+    obtain ⟨sub', hs, rfl⟩ := h
+    cases qs with
+    | nil => exact absurd List.nil_prefix hd.2
+    | cons q0 qs' =>
+      by_cases hne : q0 = p
+      · subst hne
+        rw [getPath_cons, getPath_cons, getT_setT_self, hg]
+        simp only [List.cons_prefix_cons, true_and] at hd
+        have := ih qs' sub' hs hd
+        simp only [Option.bind_some, Option.bind_none]
+        rw [this]
+        cases qs' with
+        | nil => exact absurd List.nil_prefix hd.2
+        | cons a b => exact getPath_nil_cons a b
+      · rw [getPath_cons, getPath_cons, getT_setT_ne _ _ _ _ hne]
+  | case4 p q rest kvs v sub hg ih =>
+    simp only [patch, hg, Option.map_eq_some_iff] at h
+    obtain ⟨sub', hs, rfl⟩ := h
+    cases qs with
+    | nil => exact absurd List.nil_prefix hd.2
+    | cons q0 qs' =>
+      by_cases hne : q0 = p
+      · subst hne
+        rw [getPath_cons, getPath_cons, getT_setT_self, hg]
+        simp only [List.cons_prefix_cons, true_and] at hd
+        have := ih qs' sub' hs hd
+        simp only [Option.bind_some]
+        exact this
+      · rw [getPath_cons, getPath_cons, getT_setT_ne _ _ _ _ hne]
+  | case5 p q rest kvs v w hg =>
+    simp [patch, hg] at h
 
 theorem patch_frame (ps qs : List Part) (kvs kvs' : List (Part × T)) (v : J)
     (h : patch ps kvs v = some kvs') (hd : ¬ ps <+: qs ∧ ¬ qs <+: ps) (t : T) (hleaf : ∃ w, t = .leaf w)
     (hq : getPath (.node kvs) qs = some t) :
     getPath (.node kvs') qs = some t := by
-  sorry
+  have _ := hleaf
+  rw [patch_frame_eq ps qs kvs kvs' v h hd]; exact hq
+
+
+
+theorem patch_leafpos (ps qs : List Part) (kvs kvs' : List (Part × T)) (v w : J)
+    (h : patch ps kvs v = some kvs') (hq : getPath (.node kvs') qs = some (.leaf w)) :
+    qs = ps ∨ getPath (.node kvs) qs = some (.leaf w) := by
+  have hg := patch_get ps kvs kvs' v h
+  by_cases h1 : ps <+: qs
+  · obtain ⟨e, rfl⟩ := h1
+    cases e with
+    | nil => left; simp
+    | cons a b =>
+      rw [getPath_append, hg] at hq
+      simp [getPath_leaf_cons] at hq
+  · by_cases h2 : qs <+: ps
+    · obtain ⟨e, rfl⟩ := h2
+      cases e with
+      | nil => left; simp
+      | cons a b =>
+        rw [getPath_append, hq] at hg
+        simp [getPath_leaf_cons] at hg
+    · right
+      rw [← patch_frame_eq ps qs kvs kvs' v h ⟨h1, h2⟩]; exact hq
+
+theorem patch_defined (ps : List Part) (kvs : List (Part × T)) (v : J) (hne : ps ≠ [])
+    (hf : ∀ qs, qs <+: ps → qs ≠ ps → ∀ w, getPath (.node kvs) qs ≠ some (.leaf w)) :
+    ∃ kvs', patch ps kvs v = some kvs' := by
+  induction ps, kvs, v using patch.induct with
+  | case1 => exact absurd rfl hne
+  | case2 p kvs v => exact ⟨_, rfl⟩
+  | case3 p q rest kvs v hg ih =>
+    have : ∃ s, patch (q :: rest) [] v = some s := by
+      apply ih (by simp)
+      intro qs _ hne' w
+      cases qs with
+      | nil => simp [getPath]
+      | cons a b => simp [getPath_nil_cons]
+    obtain ⟨s, hs⟩ := this
+    exact ⟨setT kvs p (.node s), by simp [patch, hg, hs]⟩
+  | case4 p q rest kvs v sub hg ih =>
+    have : ∃ s, patch (q :: rest) sub v = some s := by
+      apply ih (by simp)
+      intro qs hpre hne' w hq
+      apply hf (p :: qs) (by simp [List.cons_prefix_cons, hpre]) (by simpa using hne') w
+      rw [getPath_cons, hg]; exact hq
+    obtain ⟨s, hs⟩ := this
+    exact ⟨setT kvs p (.node s), by simp [patch, hg, hs]⟩
+  | case5 p q rest kvs v w hg =>
+    exfalso
+    apply hf [p] (by simp [List.cons_prefix_cons]) (by simp) w
+    simp [hg, getPath]
+
+/-! ### invariants along `patchAll` -/
+
+def LeafDisj (kvs : List (Part × T)) (sels : List (List Part × J)) : Prop :=
+  ∀ qs w, getPath (.node kvs) qs = some (.leaf w) → ∀ s ∈ sels, ¬ qs <+: s.1 ∧ ¬ s.1 <+: qs
+
+def Full (kvs : List (Part × T)) : Prop :=
+  ∀ qs t, qs ≠ [] → getPath (.node kvs) qs = some t →
+    ∃ e w, getPath (.node kvs) (qs ++ e) = some (.leaf w)
+
+theorem leafDisj_nil (sels : List (List Part × J)) : LeafDisj [] sels := by
+  intro qs w h
+  cases qs with
+  | nil => simp [getPath] at h
+  | cons a b => simp [getPath_nil_cons] at h
+
+theorem full_nil : Full [] := by
+  intro qs t hne h
+  cases qs with
+  | nil => exact absurd rfl hne
+  | cons a b => simp [getPath_nil_cons] at h
+
+theorem disjoint_cons {ps : List Part} {v : J} {rest : List (List Part × J)}
+    (hd : Disjoint (((ps, v) :: rest).map (·.1))) :
+    (∀ s ∈ rest, ¬ ps <+: s.1 ∧ ¬ s.1 <+: ps) ∧ Disjoint (rest.map (·.1)) := by
+  simp only [Disjoint, List.map_cons, List.pairwise_cons] at hd
+  refine ⟨?_, hd.2⟩
+  intro s hs
+  exact hd.1 s.1 (List.mem_map_of_mem hs)
+
+theorem leafDisj_step {ps : List Part} {v : J} {rest : List (List Part × J)} {kvs k1 : List (Part × T)}
+    (hd : ∀ s ∈ rest, ¬ ps <+: s.1 ∧ ¬ s.1 <+: ps)
+    (hl : LeafDisj kvs ((ps, v) :: rest)) (hp : patch ps kvs v = some k1) : LeafDisj k1 rest := by
+  intro qs w hq s hs
+  rcases patch_leafpos ps qs kvs k1 v w hp hq with rfl | hold
+  · exact hd s hs
+  · exact hl qs w hold s (List.mem_cons_of_mem _ hs)
+
+theorem patchAll_frame (sels : List (List Part × J)) (kvs kvs' : List (Part × T)) (qs : List Part)
+    (hd : ∀ s ∈ sels, ¬ s.1 <+: qs ∧ ¬ qs <+: s.1)
+    (h : patchAll sels kvs = some kvs') :
+    getPath (.node kvs') qs = getPath (.node kvs) qs := by
+  induction sels generalizing kvs with
+  | nil => simp [patchAll] at h; subst h; rfl
+  | cons s rest ih =>
+    obtain ⟨ps, v⟩ := s
+    simp only [patchAll, Option.bind_eq_some_iff] at h
+    obtain ⟨k1, hp, hr⟩ := h
+    rw [ih k1 (fun s hs => hd s (List.mem_cons_of_mem _ hs)) hr]
+    exact patch_frame_eq ps qs kvs k1 v hp (hd (ps, v) List.mem_cons_self)
+
+theorem patchAll_present (sels : List (List Part × J)) (kvs : List (Part × T))
+    (hd : Disjoint (sels.map (·.1))) (kvs' : List (Part × T)) (h : patchAll sels kvs = some kvs') :
+    ∀ s ∈ sels, getPath (.node kvs') s.1 = some (.leaf s.2) := by
+  induction sels generalizing kvs with
+  | nil => intro s hs; cases hs
+  | cons s0 rest ih =>
+    obtain ⟨ps, v⟩ := s0
+    simp only [patchAll, Option.bind_eq_some_iff] at h
+    obtain ⟨k1, hp, hr⟩ := h
+    obtain ⟨hd1, hd2⟩ := disjoint_cons hd
+    intro s hs
+    rcases List.mem_cons.1 hs with rfl | hs
+    · rw [patchAll_frame rest k1 kvs' ps (fun s hs => ⟨(hd1 s hs).2, (hd1 s hs).1⟩) hr]
+      exact patch_get ps kvs k1 v hp
+    · exact ih k1 hd2 hr s hs
+
+theorem patchAll_defined_gen (sels : List (List Part × J)) (kvs : List (Part × T))
+    (hne : ∀ s ∈ sels, s.1 ≠ []) (hd : Disjoint (sels.map (·.1))) (hl : LeafDisj kvs sels) :
+    ∃ kvs', patchAll sels kvs = some kvs' := by
+  induction sels generalizing kvs with
+  | nil => exact ⟨kvs, rfl⟩
+  | cons s0 rest ih =>
+    obtain ⟨ps, v⟩ := s0
+    obtain ⟨hd1, hd2⟩ := disjoint_cons hd
+    obtain ⟨k1, hp⟩ := patch_defined ps kvs v (hne (ps, v) List.mem_cons_self)
+      (fun qs hpre _ w hq => (hl qs w hq (ps, v) List.mem_cons_self).1 hpre)
+    obtain ⟨k2, h2⟩ := ih k1 (fun s hs => hne s (List.mem_cons_of_mem _ hs)) hd2
+      (leafDisj_step hd1 hl hp)
+    exact ⟨k2, by simp [patchAll, hp, h2]⟩
+
+theorem patchAll_disjoint_defined (sels : List (List Part × J))
+    (hne : ∀ s ∈ sels, s.1 ≠ []) (hd : Disjoint (sels.map (·.1))) :
+    ∃ kvs', patchAll sels [] = some kvs' :=
+  patchAll_defined_gen sels [] hne hd (leafDisj_nil sels)
+
+
+
+theorem leaves_node (kvs : List (Part × T)) : leaves (.node kvs) = leaves.leavesL kvs := by
+  rw [leaves]
+
+theorem leavesL_append (a b : List (Part × T)) :
+    leaves.leavesL (a ++ b) = leaves.leavesL a ++ leaves.leavesL b := by
+  induction a with
+  | nil => simp [leaves.leavesL]
+  | cons kv a ih => obtain ⟨k, t⟩ := kv; simp [leaves.leavesL, ih]
+
+theorem setT_absent (kvs : List (Part × T)) (p : Part) (t : T) (h : getT kvs p = none) :
+    setT kvs p t = kvs ++ [(p, t)] := by
+  induction kvs with
+  | nil => rfl
+  | cons kv kvs ih =>
+    obtain ⟨q, u⟩ := kv
+    simp only [getT] at h
+    by_cases hq : q = p
+    · simp [hq] at h
+    · simp only [hq, if_false] at h
+      simp [setT, hq, ih h]
+
+theorem leavesL_setT_absent (kvs : List (Part × T)) (p : Part) (t : T) (h : getT kvs p = none) :
+    leaves.leavesL (setT kvs p t) = leaves.leavesL kvs ++ leaves t := by
+  rw [setT_absent kvs p t h, leavesL_append]; simp [leaves.leavesL]
+
+theorem leavesL_setT_present (kvs : List (Part × T)) (p : Part) (t0 t : T) (v : J)
+    (h : getT kvs p = some t0) (hp : (leaves t).Perm (leaves t0 ++ [v])) :
+    (leaves.leavesL (setT kvs p t)).Perm (leaves.leavesL kvs ++ [v]) := by
+  induction kvs with
+  | nil => simp [getT] at h
+  | cons kv kvs ih =>
+    obtain ⟨q, u⟩ := kv
+    simp only [getT] at h
+    by_cases hq : q = p
+    · simp only [hq, if_true, Option.some.injEq] at h
+      subst h
+      simp only [setT, hq, if_true, leaves.leavesL]
+      -- leaves t ++ L ~ (leaves u ++ L) ++ [v]
+      refine (List.Perm.append_right _ hp).trans ?_
+      simp only [List.append_assoc]
+      exact List.Perm.append_left _ List.perm_append_comm
+    · simp only [hq, if_false] at h
+      simp only [setT, hq, if_false, leaves.leavesL, List.append_assoc]
+      exact List.Perm.append_left _ (ih h)
 
 theorem patch_leaves_fresh (ps : List Part) (kvs kvs' : List (Part × T)) (v : J)
     (h : patch ps kvs v = some kvs')
     (hfresh : ∀ qs, qs <+: ps → ∀ w, getPath (.node kvs) qs ≠ some (.leaf w))
     (hnone : getPath (.node kvs) ps = none) :
     (leaves (.node kvs')).Perm (leaves (.node kvs) ++ [v]) := by
-  sorry
+  induction ps, kvs, v using patch.induct generalizing kvs' with
+  | case1 => simp [patch] at h
+  | case2 p kvs v =>
+    simp only [patch, Option.some.injEq] at h
+    subst h
+    have hg : getT kvs p = none := by
+      cases hgp : getT kvs p with
+      | none => rfl
+      | some t => simp [hgp, getPath] at hnone
+    rw [leaves_node, leaves_node, leavesL_setT_absent _ _ _ hg]
+    simp [leaves]
+  | case3 p q rest kvs v hg ih =>
+    simp only [patch, hg, Option.map_eq_some_iff] at h
+    obtain ⟨sub', hs, rfl⟩ := h
+    have := ih sub' hs (by
+      intro qs _ w
+      cases qs with
+      | nil => simp [getPath]
+      | cons a b => simp [getPath_nil_cons]) (getPath_nil_cons q rest)
+    rw [leaves_node, leaves_node, leavesL_setT_absent _ _ _ hg]
+    refine List.Perm.append_left _ ?_
+    simpa [leaves_node, leaves.leavesL] using this
+  | case4 p q rest kvs v sub hg ih =>
+    simp only [patch, hg, Option.map_eq_some_iff] at h
+    obtain ⟨sub', hs, rfl⟩ := h
+    have := ih sub' hs (by
+      intro qs hpre w hq
+      apply hfresh (p :: qs) (by simp [List.cons_prefix_cons, hpre]) w
+      rw [getPath_cons, hg]; exact hq) (by
+      rw [getPath_cons, hg] at hnone; exact hnone)
+    rw [leaves_node, leaves_node]
+    exact leavesL_setT_present kvs p (.node sub) (.node sub') v hg this
+  | case5 p q rest kvs v w hg =>
+    simp [patch, hg] at h
 
-theorem patchAll_present (sels : List (List Part × J)) (kvs : List (Part × T))
-    (hd : Disjoint (sels.map (·.1))) (kvs' : List (Part × T)) (h : patchAll sels kvs = some kvs') :
-    ∀ s ∈ sels, getPath (.node kvs') s.1 = some (.leaf s.2) := by
-  sorry
+theorem incomparable_append {ps qs e : List Part} (h1 : ¬ ps <+: qs) (h2 : ¬ qs <+: ps) :
+    ¬ ps <+: qs ++ e ∧ ¬ qs ++ e <+: ps := by
+  constructor
+  · intro h
+    rcases List.prefix_or_prefix_of_prefix h (List.prefix_append qs e) with h | h
+    · exact h1 h
+    · exact h2 h
+  · intro h
+    exact h2 ((List.prefix_append qs e).trans h)
 
-theorem patchAll_disjoint_defined (sels : List (List Part × J))
-    (hne : ∀ s ∈ sels, s.1 ≠ []) (hd : Disjoint (sels.map (·.1))) :
-    ∃ kvs', patchAll sels [] = some kvs' := by
-  sorry
+theorem full_step {ps : List Part} {v : J} {kvs k1 : List (Part × T)}
+    (hf : Full kvs) (hp : patch ps kvs v = some k1) : Full k1 := by
+  intro qs t hne hq
+  have hg := patch_get ps kvs k1 v hp
+  by_cases h2 : qs <+: ps
+  · obtain ⟨e, rfl⟩ := h2
+    exact ⟨e, v, hg⟩
+  · by_cases h1 : ps <+: qs
+    · obtain ⟨e, rfl⟩ := h1
+      cases e with
+      | nil => exact absurd (by simp) h2
+      | cons a b =>
+        rw [getPath_append, hg] at hq
+        simp [getPath_leaf_cons] at hq
+    · rw [patch_frame_eq ps qs kvs k1 v hp ⟨h1, h2⟩] at hq
+      obtain ⟨e, w, he⟩ := hf qs t hne hq
+      refine ⟨e, w, ?_⟩
+      rw [patch_frame_eq ps (qs ++ e) kvs k1 v hp (incomparable_append h1 h2)]
+      exact he
+
+theorem patchAll_leaves_gen (sels : List (List Part × J)) (kvs : List (Part × T))
+    (hne : ∀ s ∈ sels, s.1 ≠ []) (hd : Disjoint (sels.map (·.1))) (hl : LeafDisj kvs sels)
+    (hf : Full kvs) (kvs' : List (Part × T)) (h : patchAll sels kvs = some kvs') :
+    (leaves (.node kvs')).Perm (leaves (.node kvs) ++ sels.map (·.2)) := by
+  induction sels generalizing kvs with
+  | nil => simp [patchAll] at h; subst h; simp
+  | cons s0 rest ih =>
+    obtain ⟨ps, v⟩ := s0
+    obtain ⟨hd1, hd2⟩ := disjoint_cons hd
+    simp only [patchAll, Option.bind_eq_some_iff] at h
+    obtain ⟨k1, hp, hr⟩ := h
+    have hps : ps ≠ [] := hne (ps, v) List.mem_cons_self
+    have hnone : getPath (.node kvs) ps = none := by
+      cases hgp : getPath (.node kvs) ps with
+      | none => rfl
+      | some t =>
+        obtain ⟨e, w, he⟩ := hf ps t hps hgp
+        exact absurd (List.prefix_append ps e) (hl _ w he (ps, v) List.mem_cons_self).2
+    have h1 := patch_leaves_fresh ps kvs k1 v hp
+      (fun qs hpre w hq => (hl qs w hq (ps, v) List.mem_cons_self).1 hpre) hnone
+    have h2 := ih k1 (fun s hs => hne s (List.mem_cons_of_mem _ hs)) hd2
+      (leafDisj_step hd1 hl hp) (full_step hf hp) hr
+    refine h2.trans ?_
+    simp only [List.map_cons]
+    have := List.Perm.append_right (List.map (·.2) rest) h1
+    simpa [List.append_assoc] using this
 
 theorem patchAll_leaves (sels : List (List Part × J))
     (hne : ∀ s ∈ sels, s.1 ≠ []) (hd : Disjoint (sels.map (·.1))) (kvs' : List (Part × T))
     (h : patchAll sels [] = some kvs') :
     (leaves (.node kvs')).Perm (sels.map (·.2)) := by
-  sorry
+  have := patchAll_leaves_gen sels [] hne hd (leafDisj_nil sels) full_nil kvs' h
+  simpa [leaves_node, leaves.leavesL] using this
+
+/-! ## compaction -/
+
+theorem fix_node_vals (i : Int) (t0 : T) (rest : List (Part × T)) :
+    fix (.node ((.idx i, t0) :: rest)) = .arr (fix.fixVals ((.idx i, t0) :: rest)) := by
+  rw [fix, fix.fixVals]
+
+theorem fix_node_members (k : Str) (t0 : T) (rest : List (Part × T)) :
+    fix (.node ((.key k, t0) :: rest)) = .obj (fix.fixMembers ((.key k, t0) :: rest)) := by
+  rw [fix, fix.fixMembers]
+
+theorem fixVals_getElem (kvs : List (Part × T)) (p : Part) (n : Nat) (t' : T)
+    (hg : getT kvs p = some t') (hk : keyPos kvs p = some n) :
+    (fix.fixVals kvs)[n]? = some (fix t') := by
+  induction kvs generalizing n with
+  | nil => simp [getT] at hg
+  | cons kv kvs ih =>
+    obtain ⟨q, u⟩ := kv
+    simp only [getT, keyPos] at hg hk
+    by_cases hq : q = p
+    · simp only [hq, if_true, Option.some.injEq] at hg hk
+      subst hg; subst hk
+      simp [fix.fixVals]
+    · simp only [hq, if_false, Option.map_eq_some_iff] at hg hk
+      obtain ⟨m, hm, rfl⟩ := hk
+      simp [fix.fixVals, ih m hg hm]
+
+theorem fixMembers_dictGet (kvs : List (Part × T)) (b : Str) (t' : T)
+    (hall : ∀ kv ∈ kvs, ∃ a, kv.1 = Part.key a)
+    (hg : getT kvs (.key b) = some t') :
+    dictGet (fix.fixMembers kvs) b = some (fix t') := by
+  induction kvs with
+  | nil => simp [getT] at hg
+  | cons kv kvs ih =>
+    obtain ⟨q, u⟩ := kv
+    obtain ⟨a, ha⟩ := hall (q, u) List.mem_cons_self
+    simp only at ha
+    subst ha
+    simp only [getT] at hg
+    by_cases hq : Part.key a = Part.key b
+    · simp only [hq, if_true, Option.some.injEq] at hg
+      subst hg
+      have : a = b := by injection hq
+      simp [fix.fixMembers, dictGet, Pointer.partStr, this]
+    · simp only [hq, if_false] at hg
+      have : a ≠ b := fun e => hq (by rw [e])
+      simp [fix.fixMembers, dictGet, Pointer.partStr, this,
+        ih (fun kv hkv => hall kv (List.mem_cons_of_mem _ hkv)) hg]
+
+theorem getT_mem (kvs : List (Part × T)) (p : Part) (t : T) (h : getT kvs p = some t) :
+    (p, t) ∈ kvs := by
+  induction kvs with
+  | nil => simp [getT] at h
+  | cons kv kvs ih =>
+    obtain ⟨q, u⟩ := kv
+    simp only [getT] at h
+    by_cases hq : q = p
+    · simp only [hq, if_true, Option.some.injEq] at h
+      subst h; subst hq; exact List.mem_cons_self
+    · simp only [hq, if_false] at h
+      exact List.mem_cons_of_mem _ (ih h)
+
+theorem homL_mem (kvs : List (Part × T)) (h : homogeneous.homL kvs = true) :
+    ∀ kv ∈ kvs, homogeneous kv.2 = true := by
+  induction kvs with
+  | nil => intro kv hkv; cases hkv
+  | cons kv kvs ih =>
+    obtain ⟨q, u⟩ := kv
+    simp only [homogeneous.homL, Bool.and_eq_true] at h
+    intro kv hkv
+    rcases List.mem_cons.1 hkv with rfl | hkv
+    · exact h.1
+    · exact ih h.2 kv hkv
 
 theorem fix_lookup_rank (t : T) (ps rs : List Part) (u : T) (hh : homogeneous t = true)
     (hp : getPath t ps = some u) (hr : rankPath t ps = some rs) :
     lookupJ (fix t) rs = some (fix u) := by
-  sorry
+  induction ps generalizing t rs u with
+  | nil =>
+    simp only [getPath, Option.some.injEq] at hp
+    simp only [rankPath, Option.some.injEq] at hr
+    subst hp; subst hr
+    simp [lookupJ]
+  | cons p rest ih =>
+    cases t with
+    | leaf w => simp [getPath] at hp
+    | node kvs =>
+      rw [getPath] at hp
+      rw [rankPath] at hr
+      cases hg : getT kvs p with
+      | none => simp [hg] at hp
+      | some t' =>
+        cases hk : keyPos kvs p with
+        | none => simp [hg, hk] at hr
+        | some n =>
+          simp only [hg, hk, Option.bind_some, Option.map_eq_some_iff] at hp hr
+          obtain ⟨r, hr', rfl⟩ := hr
+          rw [homogeneous, Bool.and_eq_true, Bool.or_eq_true] at hh
+          obtain ⟨hkind, hL⟩ := hh
+          have hmem := getT_mem kvs p t' hg
+          have ht' : homogeneous t' = true := homL_mem kvs hL (p, t') hmem
+          have IH := ih t' r u ht' hp hr'
+          cases kvs with
+          | nil => cases hmem
+          | cons kv0 kr =>
+            obtain ⟨p0, t0⟩ := kv0
+            cases p0 with
+            | idx i =>
+              rw [fix_node_vals]
+              simp only []
+              rw [lookupJ]
+              simp [fixVals_getElem _ p n t' hg hk, IH]
+            | key k =>
+              rw [fix_node_members]
+              have hall : ∀ kv ∈ ((Part.key k, t0) :: kr), ∃ a, kv.1 = Part.key a := by
+                rcases hkind with hk1 | hk1
+                · simp at hk1
+                · intro kv hkv
+                  have := List.all_eq_true.1 hk1 kv hkv
+                  cases hkv1 : kv.1 with
+                  | idx j => simp [hkv1] at this
+                  | key a => exact ⟨a, rfl⟩
+              obtain ⟨b, hb⟩ := hall (p, t') hmem
+              simp only at hb
+              subst hb
+              simp only []
+              rw [Pointer.partStr, lookupJ]
+              simp [fixMembers_dictGet _ b t' hall hg, IH]
+
+/-! ## `select` -/
 
 theorem flat_spec (mparts : List Part) (mval : J) (sels : List (List Part × J))
     (hc : mval.isContainer = true) (hne : sels ≠ []) :
     select .flat mparts mval sels = some (some (.arr (sels.map (·.2)))) := by
-  sorry
+  cases sels with
+  | nil => exact absurd rfl hne
+  | cons s rest => simp [select, hc, truthyJ]
 
 theorem empty_no_projection (style : Style) (mparts : List Part) (mval : J) :
     select style mparts mval [] = none := by
-  sorry
+  cases style <;> simp [select, patchAll, fix, truthyJ]
 
 theorem noncontainer_no_projection (style : Style) (mparts : List Part) (mval : J) (sels : List (List Part × J))
     (hc : mval.isContainer = false) : select style mparts mval sels = none := by
-  sorry
+  simp [select, hc]
 
 theorem root_is_relative_from_root (mparts : List Part) (mval : J) (sels : List (List Part × J))
     (hc : mval.isContainer = true) :
     select .root mparts mval sels = select .relative [] mval (sels.map (fun s => (mparts ++ s.1, s.2))) := by
-  sorry
+  simp only [select, hc]
 
 end JP.Lemmas
